@@ -56,7 +56,7 @@ func usesBodies(T string) [][]*ir.S {
 		{li},
 		{ir.N("choice", "gch", ir.Leaf("s", T), ir.N("case", "ck", ir.Leaf("kk", "string")))},
 		{ll},
-		{ir.Cont("ga", ir.N("action", "go", ir.N("input", "", ir.Leaf("p", T)), ir.N("output", "", ir.Leaf("q", "string"))))},
+		{ir.Cont("ga", ir.N("action", "go", ir.N("input", "", ir.Leaf("p", T)), ir.N("output", "", ir.Leaf("q", "string"))), ir.N("action", "bare"), ir.Leaf("beside", T), ir.Cont("below", ir.Leaf("deep", "string")))},
 		{ir.Uses("g2")},
 		{ir.Typedef("lt", "int64"), ir.Leaf("ltl", "lt")},
 		{leafD, ir.N("anydata", "gad"), ir.N("anyxml", "gax")},
